@@ -3,8 +3,8 @@
    precondition for every source text and every recorded position, and the
    fallback listing has one block per entry.  The renderer itself
    (annotate-snippets) is trusted; see DESIGN.md section 6. *)
-From ASModel Require Import Base SrcLoc Report.
-From ASProofs Require Import SrcLocP ReportP.
+From ASModel Require Import Base SrcLoc Report Display.
+From ASProofs Require Import SrcLocP ReportP DisplayP.
 Local Open Scope N_scope.
 
 (* for every text (empty, truncated, edited, any Unicode), every recorded
@@ -29,6 +29,39 @@ Theorem c06_fallback_one_block_per_entry : forall rel es,
   List.length (map (fallback_block rel) es) = List.length es.
 Proof. exact fallback_blocks_count. Qed.
 Print Assumptions c06_fallback_one_block_per_entry.
+
+(* Display for ErrorReport as a whole (Model/Display.v): with a readable source the renderer is handed the whole
+   source text, the displayed path, and exactly one annotation per entry, in order, labelled with that entry's label *)
+Theorem c06_one_annotation_per_entry : forall st rel src e es,
+  display st rel (Some src) (e :: es) = RSnippet st rel src (map (annotation_of src) (e :: es)) /\
+  List.length (map (annotation_of src) (e :: es)) = List.length (e :: es) /\
+  map an_label (map (annotation_of src) (e :: es)) = map (fun x => entry_label (re_entry x)) (e :: es).
+Proof. exact snippet_one_annotation_per_entry. Qed.
+Print Assumptions c06_one_annotation_per_entry.
+
+(* the annotation of an entry is a function of that entry and the source alone: neither the other entries, nor their
+   order (a missing map key is reported above the values that failed before it), nor earlier reports can move or drop it *)
+Theorem c06_annotation_depends_on_its_entry_only : forall src es i,
+  nth_error (map (annotation_of src) es) i = option_map (annotation_of src) (nth_error es i).
+Proof. exact annotation_depends_on_its_entry_only. Qed.
+Print Assumptions c06_annotation_depends_on_its_entry_only.
+
+(* every annotation of every report satisfies the renderer's precondition *)
+Theorem c06_annotations_safe : forall src es,
+  Forall (fun a => an_start a < an_end a /\ is_boundary src (an_start a) = true /\ is_boundary src (an_end a) = true /\ an_start a <= blen src)
+         (map (annotation_of src) es).
+Proof. exact annotations_safe. Qed.
+Print Assumptions c06_annotations_safe.
+
+(* without a readable source: the fallback listing of the same entries; nothing is written only for an empty report *)
+Theorem c06_display_fallback : forall st rel e es,
+  display st rel None (e :: es) = RFallback (fallback_display rel (map re_entry (e :: es))).
+Proof. exact display_fallback. Qed.
+Print Assumptions c06_display_fallback.
+
+Theorem c06_display_nothing_iff_empty : forall st rel src es, display st rel src es = RNothing <-> es = [].
+Proof. exact display_nothing_iff. Qed.
+Print Assumptions c06_display_nothing_iff_empty.
 
 (* record of the repaired defect: the old computation could hand the renderer an
    offset inside a multi-byte character (which made it panic inside Display) *)
